@@ -1,2 +1,223 @@
-(* placeholder *)
-From GT Require Import Base.Prelude Model.Checkers.
+(* C12 — the exercise checkers: "OK only when the answer satisfies the exercise's criterion; a reported counterexample
+   word is genuine, has the right polarity, and is of minimal length".
+
+   The checkers are modelled at object level in Model/Checkers.v (the answer text has already been parsed by the
+   library's own parsers, C16/C17); `check_* ... = true` holds exactly when the Python routine prints OK.
+   Formal reading, per checker:
+
+   compare_languages A1 A2 (A1 = the answer's words, A2 = the expected words, both finite sets):
+     - no feedback            <->  A1 and A2 are equal as sets                                   (C12_compare_none)
+     - "w should not be accepted" (Some (true, w)): w in A1 \ A2 and no word of A1 \ A2 is shorter (C12_compare_extra)
+     - "w should be accepted"  (Some (false, w)): A1 is included in A2 (extra words are reported first),
+                                w in A2 \ A1 and no word of A2 \ A1 is shorter                    (C12_compare_missing)
+     - feedback is produced exactly when the sets differ                                          (C12_compare_some)
+   check_language_from_words: OK <-> the state bound is respected (max_states = 0 means no bound) and the given word list
+     is, as a set, the set of words of length <= n over the alphabet in the language of the answer; instances for DFA,
+     NFA and regular-expression answers, using the exactness of the three enumerators (C02).
+   check_dfa2regexp: OK => the regular expression and the DFA agree on every word of length <= n.
+   check_accepts_rejects: OK <-> every word of the accept list is accepted and every word of the reject list is rejected.
+   check_dfa_product (union / intersection / symmetric difference; ptype = 0 / 1 / 2): OK => the product D of the
+     library exists, the states of the answer are pairs of states, same alphabet, initial state (q01, q02), every
+     transition ((q1,q2),a) -> t of the answer is the componentwise one, the final states are exactly the pairs
+     selected by the operation, and the answer agrees with the language operation on all words of length <= n.
+   check_dfa_complement: OK => same alphabet, states, initial state and transition function as D1, final states =
+     Q \ F; hence the answer recognises the complement.
+   check_dfa_reverse: OK => same alphabet, all old states kept, every transition reversed, a new initial state, the only
+     final state is the old initial state, and L(answer) = reverse of L(D) on words of length <= n.
+   check_dfa_minimal: OK => same alphabet, same language on words of length <= n, and the number of distinct states of
+     the answer equals the number of Myhill-Nerode classes of D (the state count of the library's quotient, which
+     satisfies the specification of C04); with all states of D reachable no DFA for L(D) has fewer states.
+   check_nfa_to_dfa: OK => the answer has states, has the alphabet of N, its states are sets of states of N, it is total
+     and deterministic on its alphabet, its initial state is the epsilon closure of N's initial state, a state is final
+     iff it contains a final state of N, and the target of every transition is the set of the subset construction.
+   check_cyk_matrix (G in Chomsky normal form): OK => |w| rows, row k (top-down) has k+1 cells, and the cell j of the row
+     of span i (row |w|-1-i) is, as a set, { A in V | A derives w[j..j+i] }.
+   check_cfg_derivation (mode 0 leftmost, 1 rightmost, 2 any): OK => the first form is the start variable, the last is
+     the word, every symbol is a variable or terminal of G, every step rewrites one variable occurrence by a rule of G
+     (the leftmost one in mode 0, the rightmost one in mode 1); hence w is in L(G).
+   check_chomsky (phase 1..5): OK => the postconditions of phases 1..phase hold (start variable; epsilon rules only for
+     the start variable; no unit rules; right-hand sides of length <= 2; every right-hand side is empty, one terminal or
+     two variables), and under the side conditions of the exactness theorem of the word enumerator (C07/C08) the two
+     grammars agree on all words of length <= n.
+   State types are generic (any type with a decidable equality); words are lists of symbol codes. *)
+From GT Require Import Base.Prelude Base.Sort Model.DFA Model.NFA Model.DFAOps Model.Minimize Model.Lang Model.Regexp
+  Model.CFG Model.Chomsky Model.CYK Model.Simulate Model.Checkers.
+From GT Require Import Proofs.PartitionDefs Proofs.MinimizeFinal Proofs.CheckersProofs.
+From Coq Require Import Permutation.
+
+(* ---------------- compare_languages ---------------- *)
+Theorem C12_compare_none : forall A1 A2 : list word, compare_languages A1 A2 = None <-> (forall w, In w A1 <-> In w A2).
+Proof. exact compare_languages_none. Qed.
+
+Theorem C12_compare_extra : forall (A1 A2 : list word) (w : word), compare_languages A1 A2 = Some (true, w) ->
+  In w A1 /\ ~ In w A2 /\ forall v, In v A1 -> ~ In v A2 -> length w <= length v.
+Proof. exact compare_languages_extra. Qed.
+
+Theorem C12_compare_missing : forall (A1 A2 : list word) (w : word), compare_languages A1 A2 = Some (false, w) ->
+  (forall v, In v A1 -> In v A2) /\ In w A2 /\ ~ In w A1 /\ forall v, In v A2 -> ~ In v A1 -> length w <= length v.
+Proof. exact compare_languages_missing. Qed.
+
+Theorem C12_compare_some : forall A1 A2 : list word,
+  (exists b w, compare_languages A1 A2 = Some (b, w)) <-> ~ (forall w, In w A1 <-> In w A2).
+Proof. exact compare_languages_some. Qed.
+
+(* ---------------- word lists ---------------- *)
+Theorem C12_words : forall (L : list word) (nstates max_states : nat) (words : list word),
+  check_language_from_words L nstates max_states words = true <->
+  (max_states = 0 \/ nstates <= max_states) /\ (forall w, In w L <-> In w words).
+Proof. exact check_language_from_words_spec. Qed.
+
+Theorem C12_words_dfa : forall (A : Type) (HA : Eqb A) (D : dfa A) (n max_states : nat) (L words : list word),
+  dfa_wf D -> dfa_words D n = Some L ->
+  check_language_from_words L (length (dedup (dQ D))) max_states words = true ->
+  (max_states = 0 \/ length (dedup (dQ D)) <= max_states) /\
+  forall w, In w words <-> length w <= n /\ Forall (fun a => In a (dS D)) w /\ dfa_lang D w.
+Proof. exact (fun A HA => @check_language_from_words_dfa_sound A HA). Qed.
+
+Theorem C12_words_nfa : forall (A : Type) (HA : Eqb A) (N : nfa A) (n max_states : nat) (L words : list word),
+  nfa_wf N -> nfa_words N n = Some L ->
+  check_language_from_words L (length (dedup (nQ N))) max_states words = true ->
+  (max_states = 0 \/ length (dedup (nQ N)) <= max_states) /\
+  forall w, In w words <-> length w <= n /\ Forall (fun a => In a (nS N)) w /\ nfa_lang N w.
+Proof. exact (fun A HA => @check_language_from_words_nfa_sound A HA). Qed.
+
+Theorem C12_words_regexp : forall (r : re) (n : nat) (words : list word),
+  check_language_from_words (re_words r n) 0 0 words = true ->
+  forall w, In w words <-> length w <= n /\ re_lang r w.
+Proof. exact check_language_from_words_re_sound. Qed.
+
+Theorem C12_dfa2regexp : forall (A : Type) (HA : Eqb A) (D : dfa A) (r : re) (n : nat) (L : list word),
+  dfa_wf D -> dfa_words D n = Some L -> lang_ok (re_words r n) L = true ->
+  forall w, length w <= n -> (re_lang r w <-> Forall (fun a => In a (dS D)) w /\ dfa_lang D w).
+Proof. exact (fun A HA => @check_dfa2regexp_sound A HA). Qed.
+
+Theorem C12_accepts_rejects : forall va vr : list bool,
+  check_accepts_rejects va vr = true <-> Forall (fun b => b = true) va /\ Forall (fun b => b = false) vr.
+Proof. exact check_accepts_rejects_sound. Qed.
+
+(* ---------------- DFA constructions ---------------- *)
+Theorem C12_product : forall (A B : Type) (HA : Eqb A) (HB : Eqb B) (ptype n : nat) (D1 : dfa A) (D2 : dfa B) (answer : dfa (A * B)),
+  dfa_wf D1 -> dfa_wf D2 -> dfa_wf answer -> check_dfa_product ptype n D1 D2 answer = true ->
+  exists D, dfa_product ptype D1 D2 = Some D /\
+    (forall q, In q (dQ answer) -> In (fst q) (dQ D1) /\ In (snd q) (dQ D2)) /\
+    (forall a, In a (dS D1) <-> In a (dS answer)) /\ dq0 answer = (dq0 D1, dq0 D2) /\
+    (forall q a q1, In ((q, a), q1) (dD answer) -> forall t, ddelta D q a = Some t -> q1 = t) /\
+    (forall q1 q2 a t, In (((q1, q2), a), t) (dD answer) -> ddelta D1 q1 a = Some (fst t) /\ ddelta D2 q2 a = Some (snd t)) /\
+    (forall q, In q (dF answer) <-> In (fst q) (dQ D1) /\ In (snd q) (dQ D2) /\ prod_final ptype D1 D2 q = true) /\
+    (forall w, length w <= n -> Forall (fun a => In a (dS D1)) w ->
+       (dfa_lang answer w <-> match ptype with
+                              | 0 => dfa_lang D1 w \/ dfa_lang D2 w
+                              | 1 => dfa_lang D1 w /\ dfa_lang D2 w
+                              | _ => (dfa_lang D1 w /\ ~ dfa_lang D2 w) \/ (~ dfa_lang D1 w /\ dfa_lang D2 w)
+                              end)).
+Proof. exact (fun A B HA HB => @check_dfa_product_sound A B HA HB). Qed.
+
+Theorem C12_complement : forall (A : Type) (HA : Eqb A) (D1 answer : dfa A), check_dfa_complement D1 answer = true ->
+  (forall a, In a (dS D1) <-> In a (dS answer)) /\ (forall q, In q (dQ D1) <-> In q (dQ answer)) /\ dq0 D1 = dq0 answer /\
+  (forall q a, ddelta answer q a = ddelta D1 q a) /\
+  (forall q, In q (dF answer) <-> In q (dQ D1) /\ ~ In q (dF D1)).
+Proof. exact (fun A HA => @check_dfa_complement_sound A HA). Qed.
+
+Theorem C12_complement_language : forall (A : Type) (HA : Eqb A) (D1 answer : dfa A),
+  dfa_wf D1 -> check_dfa_complement D1 answer = true ->
+  forall w, Forall (fun a => In a (dS D1)) w -> (dfa_lang answer w <-> ~ dfa_lang D1 w).
+Proof. exact (fun A HA => @check_dfa_complement_lang A HA). Qed.
+
+Theorem C12_reverse : forall (A : Type) (HA : Eqb A) (n : nat) (D : dfa A) (answer : nfa A), check_dfa_reverse n D answer = true ->
+  (forall a, In a (dS D) <-> In a (nS answer)) /\ incl (dQ D) (nQ answer) /\
+  (forall q a q1, In ((q, a), q1) (dD D) -> In q (ndelta answer q1 a)) /\
+  ~ In (nq0 answer) (dQ D) /\ (forall q, In q (nF answer) <-> q = dq0 D) /\
+  (dfa_wf D -> nfa_wf answer ->
+   forall w, length w <= n -> Forall (fun a => In a (dS D)) w -> (nfa_lang answer w <-> dfa_lang D (rev w))).
+Proof. exact (fun A HA => @check_dfa_reverse_sound A HA). Qed.
+
+Theorem C12_minimal : forall (B : Type) (HB : Eqb B) (n : nat) (D : dfa nat) (answer : dfa B),
+  check_dfa_minimal n D answer = true -> dfa_wf D -> NoDup (dQ D) -> NoDup (dF D) -> dfa_wf answer ->
+  (forall a, In a (dS D) <-> In a (dS answer)) /\
+  (forall w, length w <= n -> Forall (fun a => In a (dS D)) w -> (dfa_lang answer w <-> dfa_lang D w)) /\
+  (exists Dq, dfa_quotient canon_nat (fun l => l) (@hd_error nat) D = Some Dq /\ min_spec D Dq /\
+              length (dedup (dQ answer)) = length (dQ Dq)) /\
+  (forall l, NoDup l -> incl l (dQ D) ->
+     (forall p q, In p l -> In q l -> p <> q ->
+        ~ (forall w, Forall (fun a => In a (dS D)) w -> (In (drun D p w) (dF D) <-> In (drun D q w) (dF D)))) ->
+     length l <= length (dedup (dQ answer))) /\
+  length (dedup (dQ answer)) <= length (dQ D).
+Proof. exact (fun B HB => @check_dfa_minimal_criterion B HB). Qed.
+
+Theorem C12_minimal_least : forall (B C : Type) (HB : Eqb B) (HC : Eqb C) (n : nat) (D : dfa nat) (answer : dfa B) (D2 : dfa C),
+  check_dfa_minimal n D answer = true -> dfa_wf D -> NoDup (dQ D) -> NoDup (dF D) -> dfa_wf answer ->
+  (forall q, In q (dQ D) -> exists w, Forall (fun a => In a (dS D)) w /\ drun D (dq0 D) w = q) ->
+  dfa_wf D2 -> dS D2 = dS D -> (forall w, Forall (fun a => In a (dS D)) w -> (dfa_lang D w <-> dfa_lang D2 w)) ->
+  length (dedup (dQ answer)) <= length (dQ D2).
+Proof. exact (fun B C HB HC => @check_dfa_minimal_least B C HB HC). Qed.
+
+Theorem C12_nfa_to_dfa : forall (N : nfa nat) (answer : nfa (list nat)), check_nfa_to_dfa N answer = true ->
+  nQ answer <> [] /\ (forall a, In a (nS N) <-> In a (nS answer)) /\
+  (forall q, In q (nQ answer) -> incl q (nQ N)) /\
+  (forall x, In x (nq0 answer) <-> In x (eclose N [nq0 N])) /\
+  (forall q, In q (nQ answer) -> (In q (nF answer) <-> exists x, In x q /\ In x (nF N))) /\
+  (forall q a, In q (nQ answer) -> In a (nS answer) ->
+     exists q1, ndelta answer q a = [q1] /\
+                forall x, In x q1 <-> In x (eclose N (big_union (map (fun x => ndelta N x a) q)))) /\
+  (nfa_wf N ->
+     (forall x, In x (nq0 answer) <-> eps_star N (nq0 N) x) /\
+     (forall q a q1, In q (nQ answer) -> In a (nS answer) -> In q1 (ndelta answer q a) ->
+        forall p, In p q1 <-> exists x x1, In x q /\ In x1 (ndelta N x a) /\ eps_star N x1 p)).
+Proof. exact check_nfa_to_dfa_sound. Qed.
+
+(* ---------------- grammars ---------------- *)
+Theorem C12_cyk_matrix : forall (G : cfg) (w : word) (rows : list (list (list nat))),
+  is_chomsky G -> cfg_wf G -> check_cyk_matrix G w rows = true ->
+  length rows = length w /\
+  (forall k, k < length w -> length (nth k rows []) = S k) /\
+  (forall k j A, In A (nth j (nth k rows []) []) -> In A (gV G)) /\
+  forall i j, i + j < length w ->
+    forall A, In A (nth j (nth (length w - 1 - i) rows []) []) <->
+              In A (gV G) /\ yields G (Var A) (firstn (S (i + j) - j) (skipn j w)).
+Proof. exact check_cyk_matrix_sound. Qed.
+
+Theorem C12_derivation : forall (G : cfg) (mode : nat) (w : word) (steps : list (list sym)),
+  check_cfg_derivation G mode w steps = true ->
+  hd_error steps = Some [Var (gS G)] /\ last steps [] = tword w /\
+  (forall x s, In x steps -> In s x -> if is_var s then In (sname s) (gV G) else In (sname s) (gSg G)) /\
+  (forall i, S i < length steps ->
+     exists pre A post rhs, nth i steps [] = pre ++ Var A :: post /\ nth (S i) steps [] = pre ++ rhs ++ post /\
+       has_rule G A rhs /\
+       (mode = 0 -> forallb (fun s => negb (is_var s)) pre = true) /\
+       (mode = 1 -> forallb (fun s => negb (is_var s)) post = true)) /\
+  cfg_lang G w.
+Proof. exact check_cfg_derivation_sound. Qed.
+
+Theorem C12_chomsky : forall (ordV : list nat -> list nat) (stream : list nat) (G G1 : cfg) (phase start n : nat),
+  check_chomsky ordV stream G G1 phase start n = true ->
+  (1 <= phase -> gS G1 = start) /\
+  (2 <= phase -> forall r, In r (gR G1) -> rrhs r = [] -> rvar r = gS G1) /\
+  (3 <= phase -> forall r, In r (gR G1) -> is_unit r = false) /\
+  (4 <= phase -> forall r, In r (gR G1) -> length (rrhs r) <= 2) /\
+  (5 <= phase -> forall r, In r (gR G1) -> alt_is_chomsky (rrhs r) = true) /\
+  ((forall l, Permutation (ordV l) l) ->
+   cfg_wf G -> (forall x, In x (gV G) -> ~ In x (gSg G)) -> In (gS G) (gV G) -> (forall x, In x stream -> ~ In x (gSg G)) ->
+   cfg_wf G1 -> (forall x, In x (gV G1) -> ~ In x (gSg G1)) -> In (gS G1) (gV G1) -> (forall x, In x stream -> ~ In x (gSg G1)) ->
+   forall w, length w <= n -> (cfg_lang G1 w <-> cfg_lang G w)).
+Proof. exact check_chomsky_sound. Qed.
+
+Print Assumptions C12_compare_none.
+Print Assumptions C12_compare_extra.
+Print Assumptions C12_compare_missing.
+Print Assumptions C12_compare_some.
+Print Assumptions C12_words.
+Print Assumptions C12_words_dfa.
+Print Assumptions C12_words_nfa.
+Print Assumptions C12_words_regexp.
+Print Assumptions C12_dfa2regexp.
+Print Assumptions C12_accepts_rejects.
+Print Assumptions C12_product.
+Print Assumptions C12_complement.
+Print Assumptions C12_complement_language.
+Print Assumptions C12_reverse.
+Print Assumptions C12_minimal.
+Print Assumptions C12_minimal_least.
+Print Assumptions C12_nfa_to_dfa.
+Print Assumptions C12_cyk_matrix.
+Print Assumptions C12_derivation.
+Print Assumptions C12_chomsky.
